@@ -2,7 +2,8 @@
 
 Every verdict on the implementation's outputs is the value of a Lean checker (`chkScc`, `chkTopo`,
 `cyclicB`, `chkCondense`) whose meaning is proved in Solvor/Graph/Theorems.lean; the mirrors
-(`tarjan`, `kahn`, `condEdges`) give R_trace.
+(`tarjan`, `kahn`, `condEdges`) are proved correct for every input (`tarjan_certifies`, `kahn_correct`,
+`condense_correct`) and give R_trace.
 
 Inputs whose neighbour lists leave the node list: the property does not say whether the graph meant
 is the one induced on the node list (reading A – what `topological_sort` does) or the one explored
@@ -19,13 +20,13 @@ from pool import err_kind, run_pool
 AREAS = ["Graph"]
 LEVEL = "proof"
 ASSUMPTIONS = [
-    "Python dict/set/deque of scc.py modelled as functions and lists (insertion order, FIFO); recursion "
-    "depth of strongconnect modelled by fuel = number of distinct vertices + 1",
-    "Tarjan's invariant is not proved for all inputs (tarjan_certifies is checked per input: the verified "
-    "checker chkScc accepts the mirror's and the implementation's components on every explored input)",
+    "Python dict/set/deque of scc.py modelled as functions and lists (insertion order, FIFO); the recursion "
+    "of strongconnect is modelled with fuel = number of distinct vertices + 1, proved sufficient (visit_spec); "
+    "CPython's own recursion limit is not modelled",
     "neighbours outside the node list: the property is read as the clauses common to the induced-graph and "
-    "the explored-graph reading; duplicate entries in the node iterable are outside the quantifier "
-    "(SCC/condense judged on the node set, topological_sort only counted)",
+    "the explored-graph reading (proved: chk...Open_correct, open_clauses_common); duplicate entries in the "
+    "node iterable are outside the quantifier (SCC/condense judged on the node set, topological_sort only "
+    "counted)",
 ]
 RULE = ("random digraphs with <= 9 nodes (12 in the thorough tier): several weak components, planted cycles, "
         "DAG-biased instances, self loops, duplicate edges, shuffled node and neighbour order, int/str/mixed "
@@ -409,7 +410,8 @@ def failures(case, out, reply):
                                   "strongly_connected_components returns on the same input"))
                 if (c["comps"], c["cadj"]) != ([sorted(x) for x in m_scc], [sorted(x) for x in m_cadj]):
                     tdivs.append((fn, {"impl": [c["comps"], c["cadj"]], "mirror": [m_scc, m_cadj]}))
-    # the mirror's own outputs must pass the verified checkers (per-input instance of tarjan_certifies)
+    # the mirror's own outputs must pass the verified checkers (tarjan_certifies / kahn_correct say they
+    # always do; evaluating it ties the compiled driver to the theorems)
     if not (cert[0] and cert[1] and (cert[2] if closed else cert[3])):
         tdivs.append(("mirror", {"certificate_of_mirror_failed": cert, "mirror": [m_scc, m_topo, m_cadj]}))
     return fails, tdivs, counts
